@@ -5,6 +5,16 @@ _PENDING = ["C01", "C02", "C03", "C04", "C05", "C06", "C07", "C08", "C09", "C10"
             "C17", "C18", "C19", "C20"]
 
 CHECKS = [
+    {"property_id": "C10",
+     "text": "Coq theorems over every sequence of well-formed frames and every segmentation (read_all = frames), plus the stronger "
+             "statement that for arbitrary bytes the read loop's output is a function of the stream alone, progress (>= 4 bytes per "
+             "success), termination, garbage => error, and segmentation independence of the ConnectionBind reply parsing; the model "
+             "(Model/Framer.v) is run against consumeSingleTURNFrame, STUNConn.ReadFrom over a scripted net.Conn and "
+             "TCPAllocation.BindConnection on thousands of frame sequences x segmentations each run.",
+     "note": "Trusted: Coq kernel, Go harness, net.Conn.Read contract (segment list is the model's input), caller buffer large enough "
+             "for a frame. Recursion depth of ReadFrom and memory are not modelled.",
+     "technique": "Coq proof (induction over reads, monotonicity of the frame decision) + differential correspondence check against "
+                  "internal/proto/stun_conn.go and internal/client/tcp_alloc.go"},
     {"property_id": "C11",
      "text": "Coq theorems over all channel numbers, payloads up to 65535 bytes, raw buffers and raw attribute values of every "
              "length (round trips, decode-iff, wrong-size rejection) about Model/ChanData.v and Model/Attrs.v; the models are "
